@@ -20,7 +20,7 @@ def main():
     h = runner.load_harness(payload["harness"])
     tol = getattr(h, "tol", 1e-8)
     for r in rec["results"]:
-        if r["name"] != payload["obligation"]:
+        if runner._nopath(r["name"]) != runner._nopath(payload["obligation"]):
             continue
         if r["status"] == "value":
             import mpmath
